@@ -50,14 +50,25 @@ func (e *e2eServer) start() error {
 	cfg.NumShards = e.n
 	cfg.NotificationsRetentionTime = time.Hour
 	var err error
-	for i := 0; i < 20; i++ {
-		e.s, err = server.NewStandalone(cfg)
+	e.s = nil
+	for i := 0; i < 100; i++ {
+		var s *server.Standalone
+		s, err = server.NewStandalone(cfg)
 		if err == nil {
+			e.s = s
 			return nil
 		}
 		time.Sleep(50 * time.Millisecond) // the port of the previous incarnation may still be closing
 	}
 	return err
+}
+
+// stop closes the server if it is running.
+func (e *e2eServer) stop() {
+	if e.s != nil {
+		_ = e.s.Close()
+		e.s = nil
+	}
 }
 
 func (e *e2eServer) addr() string { return fmt.Sprintf("127.0.0.1:%d", e.port) }
@@ -82,7 +93,7 @@ func runC14Client(t *rapid.T) {
 	}
 	defer func() {
 		time.Sleep(30 * time.Millisecond) // let the read goroutines of the server finish closing their iterators
-		_ = srv.s.Close()
+		srv.stop()
 	}()
 	drainPanics()
 
@@ -219,7 +230,7 @@ func runC14Client(t *rapid.T) {
 		time.Sleep(time.Duration(rapid.IntRange(100, 900).Draw(t, "restartAtMs")) * time.Millisecond)
 		logf("server restart at %v", time.Since(start).Round(time.Millisecond))
 		time.Sleep(30 * time.Millisecond)
-		_ = srv.s.Close()
+		srv.stop()
 		if err := srv.start(); err != nil {
 			t.Skip("inconclusive: standalone does not restart: " + err.Error())
 		}
